@@ -35,6 +35,7 @@ type StepMon struct {
 	present  map[string]string // Sub|Inst -> culprit step at which it appeared
 	nEvals   int
 	lastStep string
+	seenTx   bool
 }
 
 func (m *StepMon) Name() string { return m.Prop }
@@ -80,9 +81,10 @@ func (m *StepMon) observe(ctx sdk.Context, step string, boundary bool) {
 
 func (m *StepMon) PreTx(ctx sdk.Context, t *ExecTx) {
 	step := "ante"
-	if t.Index == 0 {
+	if !m.seenTx {
 		step = "BeginBlock(+ante)"
 	}
+	m.seenTx = true
 	m.observe(ctx, step, false)
 }
 
@@ -101,6 +103,7 @@ func (m *StepMon) AfterBlock(s *Sim, eb *ExecBlock) {
 	m.observe(s.Ctx(), step, true)
 	s.Stats.Inc("checks/"+m.Prop, float64(m.nEvals))
 	m.nEvals = 0
+	m.seenTx = false
 }
 
 func issuef(sub, inst, format string, args ...any) Issue {
